@@ -315,6 +315,11 @@ EvProbe ==
          v == UNION {
                 When(premise /\ ~MatchesOf(cfg.shallow, tracked, m, s), "ConvergedAtQuiescence"),
                 When(premise /\ drifted /\ ~MatchesOf(cfg.shallow, tracked, m, s), "ResyncAfterDrift"),
+                \* "ticks AND activity": with the ticks converged, Is() of the mirror
+                \* answers what the source's does
+                When(premise /\ MatchesOf(cfg.shallow, tracked, m, s) /\
+                     (SetOf(Line.mact) \cap tracked) # (SetOf(Line.sact) \cap tracked),
+                     "ActivityAtQuiescence"),
                 When(Line.quiescent /\ (Line.blocked > 0 \/ Line.syncopen > 0), "NoForeverBlock")}
          d == When(q /\ mirror # None /\ m.t # mirror.t, "probe.mirror")
      IN /\ viol' = viol \cup v
